@@ -19,6 +19,56 @@ class Inadmissible(Exception):
     """the arguments are outside what the operation documents; the property says nothing"""
 
 
+# does `permute_rdms` pass `dissimilarity_measure` on?  (probed from the tree by the engine; on the
+# pinned tree it does not: the result has None)
+PK = False
+
+
+def resolve_idx(n, idx):
+    """row positions `rdms[idx]` names among n RDMs: an int (negative counts from the end), a
+    list / tuple / integer array (negative entries allowed), a slice, a boolean mask of length n"""
+    kind = idx['kind']
+    if kind == 'int':
+        i = idx['i']
+        if not -n <= i < n:
+            raise Inadmissible('row index out of range')
+        return [i % n]
+    if kind == 'list':
+        if any(not -n <= i < n for i in idx['l']):
+            raise Inadmissible('row index out of range')
+        return [i % n for i in idx['l']]
+    if kind == 'mask':
+        if len(idx['l']) != n:
+            raise Inadmissible('mask of the wrong length')
+        return [k for k, b in enumerate(idx['l']) if b]
+    if kind == 'slice':
+        if idx['step'] == 0:
+            raise Inadmissible('slice step 0')
+        out, k = [], None
+        start, stop, step = idx.get('start'), idx.get('stop'), idx['step']
+        # written out (not via Python's slice) so that it shares nothing with numpy
+        def norm(b, lo, hi):
+            if b < 0:
+                b += n
+            return max(lo, min(hi, b))
+        if step > 0:
+            a = 0 if start is None else norm(start, 0, n)
+            z = n if stop is None else norm(stop, 0, n)
+            k = a
+            while k < z:
+                out.append(k)
+                k += step
+        else:
+            a = n - 1 if start is None else norm(start, -1, n - 1)
+            z = -1 if stop is None else norm(stop, -1, n - 1)
+            k = a
+            while k > z:
+                out.append(k)
+                k += step
+        return out
+    raise Inadmissible(f'index kind {kind}')
+
+
 def pget(o, k):
     for kk, v in o['pdesc']:
         if kk == k:
@@ -43,7 +93,7 @@ def take_rows(o, sel):
         if not 0 <= i < len(o['mats']):
             raise Inadmissible('row index out of range')
     return {'n': o['n'], 'mats': [_copy.deepcopy(o['mats'][i]) for i in sel],
-            'odesc': dict(o['odesc']),
+            'odesc': dict(o['odesc']), 'meas': o.get('meas'),
             'rdesc': {k: [v[i] for i in sel] for k, v in o['rdesc'].items()},
             'pdesc': [[k, list(v)] for k, v in o['pdesc']]}
 
@@ -65,7 +115,7 @@ def take_conds(o, sel):
                 else:
                     new[a][b] = m[sel[a]][sel[b]]
         mats.append(new)
-    return {'n': k, 'mats': mats, 'odesc': dict(o['odesc']),
+    return {'n': k, 'mats': mats, 'odesc': dict(o['odesc']), 'meas': o.get('meas'),
             'rdesc': {kk: list(v) for kk, v in o['rdesc'].items()},
             'pdesc': [[kk, [v[i] for i in sel]] for kk, v in o['pdesc']]}
 
@@ -152,7 +202,9 @@ def apply(store, op):
         return s[i]
 
     if name == 'getitem':
-        return s + [take_rows(src(), op['sel'])], set()
+        o = src()
+        sel = resolve_idx(len(o['mats']), op['idx']) if op.get('idx') is not None else op['sel']
+        return s + [take_rows(o, sel)], set()
     if name == 'subset':
         o = src()
         col = rget(o, op['by'])
@@ -176,6 +228,17 @@ def apply(store, op):
             raise Inadmissible('not a permutation')
         s[op['src']] = take_conds(o, op['ord'])
         return s, {op['src']}
+    if name == 'sort_multi':
+        # sort_by(k1=…, k2=…): the sorts one after the other, `index` reset once at the end
+        cur = s
+        for n_k, (by, how) in enumerate(op['keys']):
+            last = n_k == len(op['keys']) - 1
+            sub = {'op': 'sort_alpha' if how == 'alpha' else 'sort_list', 'src': op['src'], 'by': by,
+                   'reindex': op['reindex'] and last}
+            if how != 'alpha':
+                sub['vals'] = how
+            cur, _ = apply(cur, sub)
+        return cur, {op['src']}
     if name in ('sort_alpha', 'sort_list'):
         o = src()
         col = pget(o, op['by'])
@@ -201,6 +264,8 @@ def apply(store, op):
         r = s[j]
         if o['n'] != r['n'] or any(k not in r['rdesc'] for k in o['rdesc']):
             raise Inadmissible('shape / descriptor keys')
+        if o.get('meas') != r.get('meas'):
+            raise Inadmissible('different dissimilarity measures')
         new = _copy.deepcopy(o)
         new['mats'] = new['mats'] + _copy.deepcopy(r['mats'])
         new['rdesc'] = {k: list(v) + list(r['rdesc'][k]) for k, v in o['rdesc'].items()}
@@ -215,6 +280,8 @@ def apply(store, op):
         kept, rdesc = merged_descs(objs)
         if any(o['n'] != first['n'] for o in objs):
             raise Inadmissible('shape')
+        if any(o.get('meas') != first.get('meas') for o in objs):
+            raise Inadmissible('different dissimilarity measures')
         t = op.get('target')
         if t is None:
             t = concat_target(first)
@@ -228,7 +295,7 @@ def apply(store, op):
             if order is not None:
                 maybe.add(i)
             mats += _copy.deepcopy(al['mats'])
-        res = {'n': first['n'], 'mats': mats, 'odesc': kept, 'rdesc': rdesc,
+        res = {'n': first['n'], 'mats': mats, 'odesc': kept, 'rdesc': rdesc, 'meas': first.get('meas'),
                'pdesc': [[k, list(v)] for k, v in first['pdesc']]}
         return s + [res], maybe
     if name in ('copy', 'dict'):
@@ -263,7 +330,7 @@ def apply(store, op):
                         if a != b and allp[a] in l and allp[b] in l:
                             new[a][b] = m[l.index(allp[a])][l.index(allp[b])]
                 mats.append(new)
-        res = {'n': big, 'mats': mats, 'odesc': kept, 'rdesc': rdesc,
+        res = {'n': big, 'mats': mats, 'odesc': kept, 'rdesc': rdesc, 'meas': objs[-1].get('meas'),
                'pdesc': [[d, list(allp)], ['index', list(range(big))]] if d != 'index'
                else [[d, list(allp)]]}
         return s + [res], set()
@@ -281,6 +348,7 @@ def apply(store, op):
         new['pdesc'] = [[k, ([str(x) if isinstance(x, int) else x for x in v] if k == 'index' else v)]
                         for k, v in new['pdesc']]
         new['odesc']['p_inv'] = [p.index(i) for i in range(len(p))]
+        new['meas'] = o.get('meas') if PK else None
         return s + [new], set()
     if name == 'sort_unknown':
         raise Inadmissible('sort_by method is neither alpha nor a list')
@@ -295,7 +363,7 @@ def n_from_len(ln):
     return n
 
 
-def new_obj(vecs, odesc, rdesc, pdesc):
+def new_obj(vecs, odesc, rdesc, pdesc, meas=None):
     """initial object from condensed vectors (row-major upper triangle)"""
     n = n_from_len(len(vecs[0]))
     mats = []
@@ -310,5 +378,5 @@ def new_obj(vecs, odesc, rdesc, pdesc):
     rd = {k: list(v) for k, v in rdesc}
     if 'index' not in rd:
         rd['index'] = list(range(len(vecs)))
-    return {'n': n, 'mats': mats, 'odesc': {k: v for k, v in odesc}, 'rdesc': rd,
+    return {'n': n, 'mats': mats, 'odesc': {k: v for k, v in odesc}, 'rdesc': rd, 'meas': meas,
             'pdesc': with_index([[k, list(v)] for k, v in pdesc], n)}
